@@ -12,6 +12,7 @@ import (
 
 func init() {
 	register("C02", func(c *core.Ctx, tier string) {
+		baseTransportEffects(c, "C02.11")
 		frameTransportEffects(c, "C02.10")
 		c02OpenGuard(c)
 		c02MessageBranch(c)
